@@ -811,6 +811,10 @@ def main(run):
         "K = 3+2*alpha (blend, |gamma| <= 1+alpha) or K = 1+max(1, 1/(2(1-rand))) (SBX, bound on beta); exact over R",
     ]
     run.build_props()
+    # float level: the final clamp of the two bounded operators on binary64 (Props/C10_float.v)
+    if run.build_props(props="Props/C10_float.v"):
+        run.trusted.append("Coq standard library specification of primitive floats (FloatAxioms.ltb_spec, leb_spec, eqb_spec) for the "
+                           "float-level clamp theorems; Print Assumptions also lists the primitive float / int63 operations themselves")
     gen_evaluable = tie_T(run)
     rng = run.rng
     terms, cases = [], []
